@@ -124,6 +124,7 @@ type replyForm struct {
 	Quote     quoteStyle
 	OuterOpts []byte // outer IPv4 options (multiple of 4)
 	OuterHBH  []byte // IPv6: options of an outer hop-by-hop extension header (6 bytes: an 8-byte header)
+	QOpts     []byte // IPv4: options present in the QUOTED header (inserted on the way; multiple of 4)
 	Code      byte   // ICMP code (du)
 	QTTL      int    // rewritten quoted TTL (-1 = keep)
 	QTOS      int    // rewritten quoted TOS (-1 = keep)
@@ -170,6 +171,14 @@ func catalogueFor(variant string, v6 bool) []replyForm {
 					f = base
 					f.Name += "/outer-opts" + string(rune('a'+i))
 					f.OuterOpts = o
+					fs = append(fs, f)
+				}
+				// the quoted header itself carries options (inserted by a box on the path): the transport
+				// header follows the QUOTED header length, not byte 20
+				for i, o := range [][]byte{{1, 1, 1, 0}, rr} {
+					f = base
+					f.Name += "/quoted-opts" + string(rune('a'+i))
+					f.QOpts = o
 					fs = append(fs, f)
 				}
 			} else {
@@ -260,6 +269,12 @@ func (f replyForm) encode(fl flowInfo, probe []byte, from netip.Addr, ttl int, s
 	switch f.Kind {
 	case "te", "du":
 		q := append([]byte(nil), probe...)
+		if !fl.V6 && len(f.QOpts) > 0 {
+			h := int(q[0]&0xf) * 4
+			q = append(append(append([]byte(nil), q[:h]...), f.QOpts...), q[h:]...)
+			q[0] = 0x40 | byte((h+len(f.QOpts))/4)
+			binary.BigEndian.PutUint16(q[2:], binary.BigEndian.Uint16(q[2:])+uint16(len(f.QOpts)))
+		}
 		if !fl.V6 {
 			ihl := int(q[0]&0xf) * 4
 			if f.QTTL >= 0 {
